@@ -323,6 +323,13 @@ def programs(draw, discrete=False, max_sites=14, combinators=("call", "vmap", "s
         fn, sites = _gen_fn(draw, cfg, dict(plain), steps, False, draw(st.integers(1, 2)), ["draw"] + avail)
         fns["M0"], plain["M0"] = fn, {"np": fn["np"], "kw": [], "sites": sites}
         order.append("M0")
+        if "cond" in combinators and draw(st.booleans()):
+            # a Cond whose branches are mid-level functions: both branches call the same generative functions / combinators
+            # at the same addresses (with different arguments), i.e. shared addresses below the first level of the branches
+            fns["M0x"] = _perturb_fn(draw, fn)
+            plain["M0x"] = dict(plain["M0"])
+            order.append("M0x")
+            cfg["cond_pairs"].append(("M0", "M0x"))
     n_main = draw(st.integers(1, 3 if discrete else 4))
     g = FnGen(draw, cfg, dict(plain), steps, False, draw(st.integers(1, 2)), ("t",) if kwargs and draw(st.integers(0, 3)) == 0 else ())
     if force == "indicator" and cfg["cond_pairs"]:
